@@ -1,5 +1,5 @@
 (** C13 — no remote input panics or wedges the accessory. *)
-From HC Require Import Base.HBytes Model.Charac Model.Hap Proofs.HapProofs Proofs.CharacProofs.
+From HC Require Import Base.HBytes Model.Charac Model.Hap Proofs.HapProofs Proofs.CharacProofs Model.Sessions Proofs.SessionsProofs.
 Open Scope N_scope.
 
 (** No operation in any world makes a handler panic: every request is answered (a TLV8 / JSON
@@ -46,3 +46,12 @@ Theorem C13_refuted_pinned :
   snd (pv_handle (mkKnobs true true true true false true) 2 true [] (PVFinish false false true [] SInvalid)) = RPanic.
 Proof. exact pinned_panics. Qed.
 Print Assumptions C13_refuted_pinned.
+
+(** A connection that is closed late — its successor under the same key (the peer reset it and
+    connected again from the same port) was accepted already: removing whatever is stored under the
+    key leaves the successor's handler without a session (it panicked); removing only one's own
+    (repair 44e806b) does not. *)
+Theorem C13_late_close_keeps_the_successors_session :
+  srun (fun _ => 0%nat) false empty_table [SConnect 1; SConnect 2; SClose 1; SRequest 2]%nat = [ONone; ONone; ONone; ONoSession] /\
+  srun (fun _ => 0%nat) true empty_table [SConnect 1; SConnect 2; SClose 1; SVerify 2; SRequest 2]%nat = [ONone; ONone; ONone; ONone; OServed].
+Proof. exact late_close. Qed.
